@@ -9,7 +9,7 @@ LEVEL = dict(
               "merge is the newer table and the next Prev comes from the older trailer); the merged table's Compressed entries are "
               "consulted when object streams are expanded; incremental save writes the previously loaded bytes unchanged first and "
               "accounts for them; new_from_prev links Prev to the previous xref_start and carries max_id and the xref type; nothing "
-              "outside the constructors can mutate the previous view; copy-on-write only when absent",
+              "outside the constructors can mutate the previous view; copy-on-write only when absent; on load the highest object number is taken after every Xref::merge and xref.size is corrected in both directions; the tail scan yields the last %%EOF/startxref (a short last revision leaves two markers in the scanned tail)",
     explanation="Decides the structural conditions for `latest wins` and `history preserved`. Does not decide correctness of arbitrary "
                 "histories or repeated load/update cycles.",
     trusted_base=["rustc MIR and callee resolution", "BTreeMap Entry::or_insert semantics"],
